@@ -1,19 +1,9 @@
 /* Contracts + harnesses of unit dns_rdata (property C19; RFC 1035 3.2.1 RR format, 4.1.1 header, 4.1.2 question). */
 void *malloc(size_t);
+#include "iora_dns_record_contracts.h"   /* the contracts this unit proves (shared with dns_typed / dns_parse, which use them) */
 
 /* ------------------------------------------------------------------------------------------------------------------
  * validateRdataSecurity */
-#define VR_PRE \
-__CPROVER_requires(IORA_TRUE && iora_exc == EXC_NONE && __CPROVER_is_fresh(rr, sizeof(*rr))) \
-__CPROVER_requires(rr->rdata.n <= 65535 && __CPROVER_is_fresh(rr->rdata.p, rr->rdata.n))   /* RDLENGTH is a 16-bit field */ \
-__CPROVER_assigns(iora_exc)
-
-/* proof "validate": every read inside RDATA (built-in checks + the operator[] precondition of the view shim), termination */
-void validate_contract(const DnsResourceRecord *rr)
-VR_PRE
-/* VE */ __CPROVER_ensures(iora_exc == EXC_NONE || iora_exc == EXC_DnsParseException)
-;
-
 /* proof "validate_accept" (property: "any well-formed DNS response decodes to exactly the records it encodes"):
  * A / AAAA / TXT RDATA are opaque octets (RFC 1035 3.4.1, 3.3.14, RFC 3596 2.2) - RDATA of the right length is never an error */
 void validate_accept_contract(const DnsResourceRecord *rr)
@@ -32,32 +22,6 @@ void h_validate(void)
 /* ------------------------------------------------------------------------------------------------------------------
  * decodeNameFromRdata: RDATA [rdataStart, rdataStart + rdataSize) lies inside the message (parseResourceRecord clause R3);
  * rdata is the record's own copy of those bytes. */
-#define RD_PTR ((size_t)(U16BE(rdata, rdataOffset) & 0x3FFF))
-#define RD_IS_PTR (rdataSize >= 2 && rdataOffset < rdataSize - 1 && (rdata[rdataOffset] & 0xC0) == 0xC0)
-size_t decodeNameFromRdata_contract(const uint8_t *messageData, size_t messageSize, size_t rdataStart, size_t rdataOffset,
-                                    const uint8_t *rdata, size_t rdataSize, iora_ostr *name)
-__CPROVER_requires(IORA_TRUE && iora_exc == EXC_NONE && messageSize <= DN_MAX_MSG && __CPROVER_is_fresh(messageData, messageSize))
-__CPROVER_requires(rdataSize <= 65535 && __CPROVER_is_fresh(rdata, rdataSize) && rdataStart <= messageSize && rdataSize <= messageSize - rdataStart)
-__CPROVER_requires(__CPROVER_is_fresh(name, sizeof(*name)) && G_msg_size == messageSize)
-__CPROVER_assigns(iora_exc, *name, G_name_end, G_name_start)
-/* N1 the returned RDATA offset: unchanged when there is nothing to decode, else inside RDATA (one past it only when a
- *    pointer octet is the last RDATA octet: the callers compare before they read) */
-__CPROVER_ensures(iora_exc == EXC_NONE ==> (__CPROVER_return_value == rdataOffset || __CPROVER_return_value <= rdataSize + 1))
-__CPROVER_ensures((iora_exc == EXC_NONE && rdataOffset < rdataSize) ==> __CPROVER_return_value > rdataOffset)
-/* N2 a compression pointer at the start of the name: out-of-range target is an error; otherwise exactly 2 octets consumed */
-__CPROVER_ensures((RD_IS_PTR && RD_PTR >= messageSize) ==> iora_exc != EXC_NONE)
-__CPROVER_ensures((RD_IS_PTR && iora_exc == EXC_NONE) ==> __CPROVER_return_value == rdataOffset + 2)
-/* N3 the name is decoded in the context of the whole message: at the pointer target, or at the absolute position of the RDATA offset */
-__CPROVER_ensures((RD_IS_PTR && iora_exc == EXC_NONE) ==> G_name_start == RD_PTR)
-__CPROVER_ensures((!RD_IS_PTR && rdataOffset < rdataSize && iora_exc == EXC_NONE) ==> G_name_start == rdataStart + rdataOffset)
-/* N4 a literal name that ends inside RDATA: the returned RDATA offset is where it ended */
-__CPROVER_ensures((!RD_IS_PTR && rdataOffset < rdataSize && iora_exc == EXC_NONE && G_name_end >= rdataStart && G_name_end - rdataStart <= rdataSize) ==>
-   __CPROVER_return_value == G_name_end - rdataStart)
-/* N5 */
-__CPROVER_ensures(iora_exc == EXC_NONE ==> name->n <= RFC_MAX_TEXT)
-__CPROVER_ensures(iora_exc == EXC_NONE || iora_exc == EXC_DnsParseException)
-;
-
 void h_rdname(void)
 {
   const uint8_t *m; size_t ms, rs, ro, rn; const uint8_t *rd; iora_ostr *name;
@@ -95,20 +59,13 @@ void h_header(void)
 
 /* ------------------------------------------------------------------------------------------------------------------
  * parseQuestion (decodeName replaced by its contract) */
-size_t parseQuestion_contract(const uint8_t *data, size_t offset, size_t size, DnsQuestion *question)
-__CPROVER_requires(IORA_TRUE && iora_exc == EXC_NONE && size <= DN_MAX_MSG && offset <= size && __CPROVER_is_fresh(data, size))
-__CPROVER_requires(__CPROVER_is_fresh(question, sizeof(*question)) && G_msg_size == size)
-__CPROVER_assigns(iora_exc, *question, G_name_end, G_name_start)
-/* Q1 QNAME (ending at G_name_end) is followed by exactly QTYPE(2) QCLASS(2); the question ends inside the message */
-__CPROVER_ensures(iora_exc == EXC_NONE ==> (__CPROVER_return_value <= size && __CPROVER_return_value == G_name_end + 4 && G_name_end >= offset && G_name_start == offset))
-/* Q2 QTYPE and QCLASS are the big-endian 16-bit fields right after the name */
-__CPROVER_ensures(iora_exc == EXC_NONE ==> question->qtype == U16BE(data, G_name_end))
-__CPROVER_ensures(iora_exc == EXC_NONE ==> question->qclass == U16BE(data, G_name_end + 2))
-/* Q3 */ __CPROVER_ensures(iora_exc == EXC_NONE ==> question->qname.n <= RFC_MAX_TEXT)
-/* Q4 */ __CPROVER_ensures(iora_exc == EXC_NONE || iora_exc == EXC_DnsParseException)
-/* Q5 a question cut off before the end of its fixed fields is a reported error */
-__CPROVER_ensures((size < 5 || offset > size - 5) ==> iora_exc != EXC_NONE)
-;
+void h_header_c(void)
+{
+  const uint8_t *data; size_t offset, size; DnsHeader *h;
+  size_t r = parseHeader(data, offset, size, h);
+  IORA_CANARY("h_header_c: returns");
+  if (iora_exc) { IORA_CANARY("h_header_c: rejected"); } else { IORA_CANARY("h_header_c: decoded"); }
+}
 
 void h_question(void)
 {
@@ -121,44 +78,6 @@ void h_question(void)
 /* ------------------------------------------------------------------------------------------------------------------
  * parseResourceRecord (decodeName and validateRdataSecurity replaced by their contracts). RFC 1035 3.2.1:
  * NAME | TYPE(2) | CLASS(2) | TTL(4) | RDLENGTH(2) | RDATA(RDLENGTH). RS = start of RDATA. */
-/* one ensures clause per field (measured: the four fields in ONE clause > 300 s, as four clauses 13 s) */
-#define RR_FIELDS(rr) \
-/* R2a TYPE     */ __CPROVER_ensures(iora_exc == EXC_NONE ==> (rr)->type == U16BE(data, G_name_end)) \
-/* R2b CLASS    */ __CPROVER_ensures(iora_exc == EXC_NONE ==> (rr)->cls == U16BE(data, G_name_end + 2)) \
-/* R2c TTL      */ __CPROVER_ensures(iora_exc == EXC_NONE ==> (rr)->ttl == U32BE(data, G_name_end + 4)) \
-/* R2d RDLENGTH */ __CPROVER_ensures(iora_exc == EXC_NONE ==> (rr)->rdlength == U16BE(data, G_name_end + 8))
-#define RR_PRE \
-__CPROVER_requires(IORA_TRUE && iora_exc == EXC_NONE && size <= DN_MAX_MSG && offset <= size && __CPROVER_is_fresh(data, size)) \
-__CPROVER_requires(__CPROVER_is_fresh(rr, sizeof(*rr)) && G_msg_size == size)
-
-size_t parseResourceRecord5_contract(const uint8_t *data, size_t offset, size_t size, DnsResourceRecord *rr, size_t *rdataOffset)
-RR_PRE
-__CPROVER_requires(__CPROVER_is_fresh(rdataOffset, sizeof(*rdataOffset)))
-__CPROVER_assigns(iora_exc, *rr, *rdataOffset, G_name_end, G_name_start)
-/* R1 NAME (ending at G_name_end) is followed by the 10 fixed octets, then RDATA; the record ends inside the message exactly
- *    RDLENGTH octets after the start of RDATA */
-__CPROVER_ensures(iora_exc == EXC_NONE ==> (G_name_start == offset && G_name_end >= offset && *rdataOffset == G_name_end + 10 && __CPROVER_return_value == *rdataOffset + rr->rdlength && __CPROVER_return_value <= size))
-/* R2 fixed fields bit-exact */
-RR_FIELDS(rr)
-/* R3 RDATA is exactly the RDLENGTH octets at rdataOffset (so [rdataOffset, rdataOffset + rdata.size()) lies inside the message) */
-__CPROVER_ensures(iora_exc == EXC_NONE ==> (rr->rdata.n == rr->rdlength && rr->rdata.p == data + *rdataOffset))
-/* R4 */ __CPROVER_ensures(iora_exc == EXC_NONE ==> rr->name.n <= RFC_MAX_TEXT)
-/* R5 */ __CPROVER_ensures(iora_exc == EXC_NONE || iora_exc == EXC_DnsParseException)
-/* R6 a record cut off before the end of its fixed fields is a reported error */
-__CPROVER_ensures((size < 11 || offset > size - 11) ==> iora_exc != EXC_NONE)
-;
-
-size_t parseResourceRecord4_contract(const uint8_t *data, size_t offset, size_t size, DnsResourceRecord *rr)
-RR_PRE
-__CPROVER_assigns(iora_exc, *rr, G_name_end, G_name_start)
-__CPROVER_ensures(iora_exc == EXC_NONE ==> (G_name_start == offset && G_name_end >= offset && __CPROVER_return_value == G_name_end + 10 + rr->rdlength && __CPROVER_return_value <= size))
-RR_FIELDS(rr)
-__CPROVER_ensures(iora_exc == EXC_NONE ==> (rr->rdata.n == rr->rdlength && rr->rdata.p == data + (G_name_end + 10)))
-__CPROVER_ensures(iora_exc == EXC_NONE ==> rr->name.n <= RFC_MAX_TEXT)
-__CPROVER_ensures(iora_exc == EXC_NONE || iora_exc == EXC_DnsParseException)
-__CPROVER_ensures((size < 11 || offset > size - 11) ==> iora_exc != EXC_NONE)
-;
-
 void h_rr5(void)
 {
   const uint8_t *data; size_t offset, size; DnsResourceRecord *rr; size_t *ro;
